@@ -280,13 +280,13 @@ def r01_5(ck, F):
             if not (e[0] == "call" and e[1].endswith("DataBuf::new")):
                 continue   # re-store of the buffer in progress
             n += 1
-            ce = [(switch_expr(b, s), switch_meaning(b, s, v)) for s, tb, v in controlling_edges(b, bb)]
+            ce = conds(b, bb)
             ok = any(mir.last_field(x) == "first" and m is True for x, m in ce)
             ck.expect(ok, f"{mir.strip_generics(b.path)}#restart-on-first", "fresh buffer only when `first`",
                       "a fresh reassembly buffer is installed without testing `first`", b.loc(bb, i))
         for bb, i, rv in b.aggregates("chmux::receiver::Received", "Data"):
             n += 1
-            ce = [(switch_expr(b, s), switch_meaning(b, s, v)) for s, tb, v in controlling_edges(b, bb)]
+            ce = conds(b, bb)
             ok = any(mir.last_field(x) == "last" and m is True for x, m in ce)
             ck.expect(ok, f"{mir.strip_generics(b.path)}#complete-on-last", "Received::Data only when `last`",
                       "a message is handed out without testing `last`", b.loc(bb, i))
